@@ -186,3 +186,53 @@ Proof.
   assert (Hc : c = 48 \/ c = 49 \/ c = 50 \/ c = 51 \/ c = 52 \/ c = 53 \/ c = 54 \/ c = 55 \/ c = 56 \/ c = 57) by lia.
   destruct Hc as [->|[->|[->|[->|[->|[->|[->|[->|[->| ->]]]]]]]]]; vm_compute; reflexivity.
 Qed.
+
+(* ------------------------------------------------------------------ C13: every pattern matches one of the examples *)
+Lemma isort_In_local {T} (leb : T -> T -> bool) l y : In y (isort leb l) <-> In y l.
+Proof. apply isort_In. Qed.
+
+Lemma mapM_In_back {A B} (f : A -> res B) l ys y : mapM f l = Ok ys -> In y ys -> exists x, In x l /\ f x = Ok y.
+Proof. apply mapM_In. Qed.
+
+(* every VRLE has at least one example: it was built from the RLE of one *)
+Lemma vrle_has_example ct e strings vrle :
+  let rles := map (rle_coarse ct e) strings in
+  In vrle (to_vrles (dedup_by rle_eqb rles)) -> exists s, In s (mine_of strings rles vrle).
+Proof.
+  intros rles Hin. unfold to_vrles in Hin. apply isort_In in Hin.
+  apply in_map_iff in Hin as [sig [Hv Hsig]]. subst vrle.
+  unfold sigs_of in Hsig. apply (proj1 (dedup_by_In _ str_eqb_eq _ _)) in Hsig.
+  apply in_map_iff in Hsig as [r [Hr0 Hr]]. subst sig.
+  apply (proj1 (dedup_by_In _ rle_eqb_eq _ _)) in Hr. unfold rles in Hr. apply in_map_iff in Hr as [s [Hs0 Hs]]. subst r.
+  exists s. unfold mine_of. apply in_map_iff. exists (s, rle_coarse ct e s). split; [reflexivity|].
+  apply filter_In. split; [apply in_combine_map; exact Hs|]. cbn [snd]. rewrite vrle_of_sig_codes. apply str_eqb_refl.
+Qed.
+
+Lemma mine_of_sub strings rles vrle s : In s (mine_of strings rles vrle) -> length strings = length rles -> In s strings.
+Proof.
+  unfold mine_of. intros H _. apply in_map_iff in H as [[s0 r0] [<- H]]. apply filter_In in H as [H _].
+  apply in_combine_l in H. exact H.
+Qed.
+
+(* each refined pattern of a batch extraction matches at least one of the working examples *)
+Theorem batch_each_matches_some ct o e stripped gt ex merged rex :
+  batch_extract ct o e stripped gt ex = Ok (merged, rex) ->
+  table_ok ct -> 1 <= z_max_strings_in_group o ->
+  batch_oracle_okb ct o e stripped gt ex = true ->
+  forall fs, In fs merged -> exists s, In s (ex_strings ex) /\ matches_frags ct false e fs s.
+Proof.
+  unfold batch_extract. intros H Htab Hcap Hb fs Hfs.
+  pose proof (batch_oracle_okb_ok _ _ _ _ _ _ Hb) as Horc.
+  set (strings := ex_strings ex) in *. set (rles := map (rle_coarse ct e) strings) in *.
+  set (vrles := to_vrles (dedup_by rle_eqb rles)) in *.
+  destruct (mapM (refine_vrle ct o e stripped gt strings rles) vrles) as [refined|err] eqn:Eref; cbn [bind] in H; [|discriminate].
+  set (m := match refined with [_] => refined | _ => isort len_leb refined end) in *.
+  destruct (mapM _ m) as [rx|err] eqn:Erx; cbn [bind] in H; [|discriminate]. injection H as <- _.
+  assert (Hin : In fs refined).
+  { subst m. destruct refined as [|a [|b l]]; [exact Hfs|exact Hfs|apply isort_In in Hfs; exact Hfs]. }
+  destruct (mapM_In _ _ _ _ Eref Hin) as [vrle [Hv Hr]].
+  destruct (vrle_has_example ct e strings vrle Hv) as [s Hs]. fold rles in Hs.
+  exists s. split.
+  - eapply mine_of_sub; [exact Hs|]. unfold rles. rewrite map_length. reflexivity.
+  - eapply refine_vrle_covers; eassumption.
+Qed.
